@@ -289,6 +289,22 @@ class QRef:
         if cirq.has_unitary(untagged):
             u = cirq.unitary(untagged)
             return [self._apply_unitary(b, sp.embed(u, targets))]
+        if isinstance(untagged, cirq.ControlledOperation) and not cirq.is_measurement(untagged):
+            # a controlled mixture is the mixture of the controlled unitaries (ControlledGate accepts only
+            # mixtures for this reason): with probability p_i apply u_i where the controls hold one of the
+            # allowed value combinations and nothing elsewhere -- coherence between the two parts is kept
+            nctl = len(untagged.controls)
+            ctl_t, sub_t = targets[:nctl], targets[nctl:]
+            mask = np.zeros(sp.D, dtype=bool)
+            for combo in untagged.control_values.expand():
+                mask |= sp.projector_mask(ctl_t, combo)
+            proj = np.diag(mask.astype(np.complex128))
+            rest = np.eye(sp.D, dtype=np.complex128) - proj
+            sub = untagged.sub_operation
+            ks = [math.sqrt(float(p)) * (sp.embed(u, sub_t) @ proj + rest) for p, u in cirq.mixture(sub) if p > 0]
+            if self.branch_mixtures:
+                raise Unsupported("controlled mixture with hidden branches")
+            return [self._apply_kraus(b, ks)]
         if self.record_channels and cirq.is_measurement(untagged) and cirq.has_kraus(untagged):
             # keyed channel: the Kraus index is recorded
             ks = [sp.embed(k, targets) for k in cirq.kraus(untagged)]
